@@ -221,7 +221,7 @@ pub fn fmt_side(s: Side) -> &'static str {
     }
 }
 
-fn fmt_cancel(w: &World, r: &OrderRequestCancel<ExchangeIndex, InstrumentIndex>) -> String {
+pub fn fmt_cancel(w: &World, r: &OrderRequestCancel<ExchangeIndex, InstrumentIndex>) -> String {
     format!(
         "c:{}:{}:{}{}",
         w.ex_label(r.key.exchange.0),
@@ -231,7 +231,7 @@ fn fmt_cancel(w: &World, r: &OrderRequestCancel<ExchangeIndex, InstrumentIndex>)
     )
 }
 
-fn fmt_open_req(w: &World, r: &OrderRequestOpen<ExchangeIndex, InstrumentIndex>) -> String {
+pub fn fmt_open_req(w: &World, r: &OrderRequestOpen<ExchangeIndex, InstrumentIndex>) -> String {
     format!(
         "o:{}:{}:{}:{}:{}:{}",
         w.ex_label(r.key.exchange.0),
@@ -670,4 +670,100 @@ pub fn observe_any(w: &World, state: &State, pfx: &str, lines: &mut Vec<String>)
         "{pfx}trading {}",
         if state.trading == TradingState::Enabled { "on" } else { "off" }
     ));
+}
+
+/// Digest of an `InstrumentFilter` in LABEL space: `none` | `ex:<labels>` | `ins:<labels>` |
+/// `und:<number of underlyings>` (the label pair -> asset index expansion is `parse_filter`'s own; the
+/// model counts the same expansion: one underlying per exchange that has both assets, one placeholder
+/// when there is none).
+pub fn filter_digest(w: &World, f: &InstrumentFilter) -> String {
+    match f {
+        InstrumentFilter::None => "none".into(),
+        InstrumentFilter::Exchanges(l) => {
+            format!("ex:{}", l.iter().map(|e| w.ex_label(e.0).to_string()).collect::<Vec<_>>().join(","))
+        }
+        InstrumentFilter::Instruments(l) => format!(
+            "ins:{}",
+            l.iter()
+                .map(|i| match w.ins_idx.iter().position(|x| *x == i.0) {
+                    Some(label) => label.to_string(),
+                    // `parse_filter` maps an unknown label l to index l + 100
+                    None if i.0 >= 100 => (i.0 - 100).to_string(),
+                    None => format!("?{}", i.0),
+                })
+                .collect::<Vec<_>>()
+                .join(",")
+        ),
+        InstrumentFilter::Underlyings(l) => format!("und:{}", l.len()),
+    }
+}
+
+/// Digest of an engine event (kind + identifying fields, LABEL space) - what an audit record is said
+/// to carry (C10 `rec_ev` / `run_ev`). Same syntax as `Driver/EngineCommon.eventDigest`.
+pub fn event_digest(w: &World, e: &Event) -> String {
+    match e {
+        EngineEvent::Shutdown(_) => "shutdown".into(),
+        EngineEvent::Command(Command::SendOpenRequests(rs)) => {
+            format!("cmd_open {}", rs.iter().map(|r| fmt_open_req(w, r)).collect::<Vec<_>>().join(" "))
+        }
+        EngineEvent::Command(Command::SendCancelRequests(rs)) => {
+            format!("cmd_cancel {}", rs.iter().map(|r| fmt_cancel(w, r)).collect::<Vec<_>>().join(" "))
+        }
+        EngineEvent::Command(Command::CancelOrders(f)) => format!("cancel_orders {}", filter_digest(w, f)),
+        EngineEvent::Command(Command::ClosePositions(f)) => format!("close_positions {}", filter_digest(w, f)),
+        EngineEvent::TradingStateUpdate(t) => {
+            format!("trading {}", if *t == TradingState::Enabled { "on" } else { "off" })
+        }
+        EngineEvent::Account(AccountStreamEvent::Item(a)) => match &a.kind {
+            AccountEventKind::OrderSnapshot(Snapshot(o)) => format!(
+                "snap {} {} {} {} {}",
+                w.ins_label(o.key.instrument.0),
+                canon_cid(w, &o.key.cid.0),
+                fmt_dec(o.quantity),
+                fmt_dec(o.price),
+                match &o.state {
+                    OrderState::Active(s) => fmt_active(s),
+                    OrderState::Inactive(_) => "X".into(),
+                }
+            ),
+            AccountEventKind::OrderCancelled(r) => format!(
+                "resp {} {} {}",
+                w.ins_label(r.key.instrument.0),
+                canon_cid(w, &r.key.cid.0),
+                if r.state.is_ok() { "ok" } else { "err" }
+            ),
+            AccountEventKind::Trade(t) => {
+                format!("trade {} {} {}", w.ins_label(t.instrument.0), fmt_side(t.side), fmt_dec(t.quantity))
+            }
+            // balance snapshots / full account snapshots: the engine model's `Update.other` keeps no detail
+            _ => "other".into(),
+        },
+        EngineEvent::Account(AccountStreamEvent::Reconnecting(_)) => "other".into(),
+        EngineEvent::Market(MarketStreamEvent::Item(m)) => match &m.kind {
+            DataKind::Trade(t) => format!(
+                "price {} {}",
+                w.ins_label(m.instrument.0),
+                Decimal::try_from(t.price).map(fmt_dec).unwrap_or_else(|_| "?".into())
+            ),
+            _ => "other".into(),
+        },
+        EngineEvent::Market(MarketStreamEvent::Reconnecting(_)) => "other".into(),
+    }
+}
+
+/// Kinds of the outputs an audit record carries, in order: `cmd:<cancel_orders|open_orders|
+/// close_positions|algo>` for `EngineOutput::Commanded`, `algo` for `EngineOutput::AlgoOrders`; every
+/// other output kind (strategy hooks, position exits) is skipped.
+pub fn output_kinds<A, B>(outputs: &[EngineOutput<A, B>]) -> Vec<&'static str> {
+    outputs
+        .iter()
+        .filter_map(|o| match o {
+            EngineOutput::Commanded(ActionOutput::CancelOrders(_)) => Some("cmd:cancel_orders"),
+            EngineOutput::Commanded(ActionOutput::OpenOrders(_)) => Some("cmd:open_orders"),
+            EngineOutput::Commanded(ActionOutput::ClosePositions(_)) => Some("cmd:close_positions"),
+            EngineOutput::Commanded(ActionOutput::GenerateAlgoOrders(_)) => Some("cmd:algo"),
+            EngineOutput::AlgoOrders(_) => Some("algo"),
+            _ => None,
+        })
+        .collect()
 }
